@@ -711,8 +711,9 @@ func (z *bytesDecReader) readx(n uint) (bs []byte) {
 }
 
 func (z *bytesDecReader) skip(n uint) {
-	if z.c+n > uint(cap(z.b)) {
-		halt.error(&outOfBoundsError{uint(cap(z.b)), z.c + n})
+	// compare n with the number of bytes left: z.c+n can wrap around (uint)
+	if l := uint(cap(z.b)); z.c > l || n > l-z.c {
+		halt.error(&outOfBoundsError{l, z.c + n})
 	}
 	z.c += n
 }
